@@ -1,3 +1,5 @@
 import Audit.Tool
 import Adb.Props.C01
+import Adb.Props.C01Engine
 #audit_module Adb.Props.C01
+#audit_module Adb.Props.C01Engine
